@@ -20,7 +20,7 @@ ASSUMPTIONS = ["Generator: deviates below the first tabulated cumulative value a
                "random_indices: unique=True is driven with nrand <= imax"]
 REQUIRED = {"quick": {"C19.randcap": 600, "C19.randsphere": 400, "C19.generator": 400, "C19.cholesky": 300,
                       "C19.random_indices": 300, "C19.repro": 300},
-            "thorough": {"C19.randcap": 12000, "C19.randsphere": 8000, "C19.generator": 8000, "C19.cholesky": 6000,
+            "thorough": {"C19.randcap": 12000, "C19.randsphere": 8000, "C19.generator": 6000, "C19.cholesky": 6000,
                          "C19.random_indices": 6000, "C19.repro": 6000}}
 LD = sp.LD
 FAMS = ["randcap", "randcap-pole", "randsphere", "generator", "cholesky", "random_indices"]
